@@ -10,7 +10,7 @@
    PARTIAL in one respect: that the fuel the entry points supply always suffices (no hang) is compared, not proved;
    goroutine stack exhaustion (~10^6 nested parentheses) is outside any Gallina model. *)
 From InfluxQL Require Import Base.Prelude Base.Oracles Lex.Token Lex.Reader Lex.Scanner Parse.Instr Parse.ParseExpr Parse.ParseStmts
-  Proofs.ReaderProofs Proofs.LexBounded Proofs.LexerSafety Proofs.ParserSafety Proofs.ParserSafetyStmts.
+  Proofs.ReaderProofs Proofs.LexBounded Proofs.LexerSafety Proofs.LexerFuel Proofs.ParserSafety Proofs.ParserSafetyStmts.
 
 (* never a crash: no panic site is reached and neither ring is ever indexed out of range *)
 Theorem C04_never_crashes : forall (orc : oracles) text params fuel,
@@ -27,6 +27,13 @@ Theorem C04_lexer_keeps_ring : forall ulower r, rb 2 r ->
   (let '((ch, _), r') := read r in let r'' := if ch =? 0 then r' else unread r' in rb 2 r'' /\ r_bad r'' = false).
 Proof. intros ulower r H. split; [apply rb_scan; exact H|]. split; [apply rb_scan_regex; exact H|apply rb_peek; exact H]. Qed.
 Print Assumptions C04_lexer_keeps_ring.
+
+(* the lexer never hangs: on every reader state that can arise between tokens, Scan and ScanRegex finish all their loops
+   within the fuel they compute for themselves (remaining runes + 4) - no loop ever runs out of it *)
+Theorem C04_lexer_never_out_of_fuel : forall ulower r, rb 2 r -> r_oof r = false ->
+  r_oof (snd (scan ulower r)) = false /\ r_oof (snd (scan_regex r)) = false.
+Proof. intros ulower r H Hn. split; [apply nf_scan; assumption|apply nf_scan_regex; assumption]. Qed.
+Print Assumptions C04_lexer_never_out_of_fuel.
 
 (* every parser function, in the logic: entered with at most one token pushed back it leaves at most one pushed back *)
 Theorem C04_parse_query_invariant : forall orc fuel s, le_n 1 s -> wp s (parse_query orc fuel) (fun _ s' => le_n 1 s').
